@@ -9,6 +9,15 @@
    (assumption A-fs: glob 0.3 with default options - '*' also matches names with a leading dot, "**/" matches
    zero or more directories, directories are results like files; observed through the correspondence).
 
+   DOMAIN of the pattern arguments (review r4, C13-1): the code pastes the caller's pattern string after the escaped
+   directory and hands it to glob::glob, which INTERPRETS it; the model reads <ext> and <name> LITERALLY.  The two
+   agree only for arguments free of glob's metacharacters and of the separator, so the family is modelled for
+   [wf_pattern pat = true] only: <ext> / <name> contain none of  * ? [ ] { } \ /  (glob 0.3 gives a meaning to * ? [ and
+   splits at '/'; ] { } \ are excluded as well, being special in other glob dialects / on Windows) and <name> is a plain
+   component.  Outside, [fs_list] answers [FErr EUnmodelled] and the theorems below say nothing - e.g. the code's
+   list("d", "*.[t]") returns d/b.t where the literal reading would return d/c.[t] ([C13_example_literal]).
+   Directory and file NAMES in the layers (and the listed directory itself) may contain any of these characters.
+
    The file-system half of C14 ([C14_fs_consistent]) is a corollary of the same definitions; it is stated in
    Properties/C14.v. *)
 From Coq Require Import List NArith Bool Arith Sorted.
@@ -28,12 +37,29 @@ Proof. exact list_spec. Qed.
 
 (* ... where one (well-formed) layer contributes exactly the entries - files AND directories - present in it
    strictly under the directory that the pattern selects *)
-Theorem C13_layer_list_spec : forall L d tr pat q, wf_layer L ->
+Theorem C13_layer_list_spec : forall L d tr pat q, wf_layer L -> wf_pattern pat = true ->
   (In q (l_list L (d, tr) pat) <-> present L q /\ exists rel, q = d ++ rel /\ matchesP pat rel).
-Proof. exact l_list_wf. Qed.
+Proof. intros L d tr pat q W _. exact (l_list_wf L d tr pat q W). Qed.
+
+(* the domain of the pattern arguments, in words: a listing answers Ok only inside it *)
+Theorem C13_pattern_domain : forall pat, wf_pattern pat = true <->
+  match pat with
+  | PAll | PStar => True
+  | PExt e | PRecExt e => glob_literal e
+  | PSub n => plainP n /\ glob_literal n
+  end.
+Proof. exact wf_pattern_spec. Qed.
+Theorem C13_glob_literal_is : forall s, glob_literal s <-> forall c, In c s -> ~ In c [42; 63; 91; 93; 123; 125; 92; 47].
+Proof. intros s. split; exact (fun H => H). Qed.
+Theorem C13_list_ok_pattern : forall S d pat loc l, fs_list S d pat loc = FOk l -> wf_pattern pat = true.
+Proof. exact fs_list_ok_pattern. Qed.
+Theorem C13_list_outside_domain : forall S d pat loc s a,
+  fs_addr S d loc = FOk (s, a) -> wf_pattern pat = false -> fs_list S d pat loc = FErr EUnmodelled.
+Proof. intros S d pat loc s a A W. rewrite (fs_list_result S d pat loc s a A), W. reflexivity. Qed.
 
 (* both together: on well-formed layers (an invariant of all histories, below) the listing consists exactly of the
-   rendered entries that SOME layer holds strictly under the directory and that the pattern selects *)
+   rendered entries that SOME layer holds strictly under the directory and that the pattern selects
+   (the hypothesis "fs_list .. = FOk l" confines pat to the modelled family: C13_list_ok_pattern) *)
 Theorem C13_list_union : forall S d pat loc s dd tr l,
   wf_fs S -> fs_addr S d loc = FOk (s, (dd, tr)) -> fs_list S d pat loc = FOk l ->
   forall x, In x l <-> exists L q rel, In L (layers S) /\ present L q /\ q = dd ++ rel /\ matchesP pat rel /\ x = render_path q.
@@ -65,6 +91,13 @@ Proof. intros S d loc s a l A H. split; [exact (subdirs_sorted S d loc l H) | ex
 Theorem C13_layer_subdirs_spec : forall L d tr q, wf_layer L ->
   (In q (l_subdirs L (d, tr)) <-> l_get L q = Some Dir /\ exists n, q = d ++ [n]).
 Proof. exact l_subdirs_wf. Qed.
+(* both together (review r4, C13-2), and without duplicates *)
+Theorem C13_subdirs_union : forall S d loc s dd tr l,
+  wf_fs S -> fs_addr S d loc = FOk (s, (dd, tr)) -> fs_subdirectories S d loc = FOk l ->
+  forall x, In x l <-> exists L n, In L (layers S) /\ l_get L (dd ++ [n]) = Some Dir /\ x = render_path (dd ++ [n]).
+Proof. exact subdirs_union. Qed.
+Theorem C13_subdirs_nodup : forall S d loc l, fs_subdirectories S d loc = FOk l -> NoDup l.
+Proof. intros S d loc l H. exact (strictly_sorted_nodup l (subdirs_sorted S d loc l H)). Qed.
 
 (* every listed path exists according to the filesystem's own existence queries *)
 Theorem C13_listed_exist : forall S d pat loc l x,
@@ -73,10 +106,21 @@ Proof. exact listed_exist. Qed.
 Theorem C13_subdirs_listed_exist : forall S d loc l x,
   wf_fs S -> fs_subdirectories S d loc = FOk l -> In x l -> fs_directory_exists S x false = FOk true.
 Proof. exact subdirs_listed_exist. Qed.
+(* ... of its KIND (review r4, C13-3): a listed file satisfies file_exists, a listed directory directory_exists, as found in the
+   layer that contributed the entry *)
+Theorem C13_listed_exist_kind : forall S d pat loc l x,
+  wf_fs S -> fs_list S d pat loc = FOk l -> In x l ->
+  exists L q, In L (layers S) /\ x = render_path q /\
+    match l_get L q with
+    | Some (File _) => fs_file_exists S x false = FOk true
+    | Some Dir => fs_directory_exists S x false = FOk true
+    | None => False
+    end.
+Proof. exact listed_exist_kind. Qed.
 
 (* a directory present in no layer lists as empty *)
 Theorem C13_missing_is_empty : forall S d pat loc s a,
-  fs_addr S d loc = FOk (s, a) -> (forall L, In L (layers S) -> l_is_dir L a = false) ->
+  wf_pattern pat = true -> fs_addr S d loc = FOk (s, a) -> (forall L, In L (layers S) -> l_is_dir L a = false) ->
   fs_list S d pat loc = FOk [] /\ fs_subdirectories S d loc = FOk [].
 Proof. exact missing_is_empty. Qed.
 
@@ -106,4 +150,23 @@ Example C13_example_list :
   /\ fs_list ex_fs [100] (PExt [116]) false = FOk [[100; 47; 98; 46; 116]]
   /\ fs_subdirectories ex_fs [100] false = FOk [[100; 47; 115]]
   /\ fs_list ex_fs [110; 111] PAll false = FOk [].
+Proof. vm_compute. repeat split. Qed.
+
+(* the LITERAL reading of the pattern arguments, and its limit.  Top layer of ex_lit: d/b.t, d/c.[t], d/e.t!, d/s/x.
+   - "*.t!" ('!' is not in the excluded set): the name ending in ".t!";  "s/*": the entry under d/s;
+   - "*.[t]" is OUTSIDE the model (the code returns d/b.t there, glob reading [t] as a character class; the per-layer model
+     function, asked directly, would select d/c.[t]);  likewise "?/*" and "<a/b>/*" *)
+Definition ex_lit : fsys :=
+  mkFs [[([[100]], Dir); ([[100]; [98; 46; 116]], File []); ([[100]; [99; 46; 91; 116; 93]], File []);
+         ([[100]; [101; 46; 116; 33]], File []); ([[100]; [115]], Dir); ([[100]; [115]; [120]], File [])]]
+       (mkConfig LZ13 GFE13 LE Unicode) EnglishNA.
+Example C13_example_literal :
+  fs_list ex_lit [100] (PExt [116; 33]) false = FOk [[100; 47; 101; 46; 116; 33]]
+  /\ fs_list ex_lit [100] (PSub [115]) false = FOk [[100; 47; 115; 47; 120]]
+  /\ wf_pattern (PExt [116; 33]) = true /\ wf_pattern (PSub [115]) = true
+  /\ fs_list ex_lit [100] (PExt [91; 116; 93]) false = FErr EUnmodelled
+  /\ l_list (hd [] (layers ex_lit)) ([[100]], false) (PExt [91; 116; 93]) = [[[100]; [99; 46; 91; 116; 93]]]
+  /\ fs_list ex_lit [100] (PSub [63]) false = FErr EUnmodelled
+  /\ fs_list ex_lit [100] (PSub [115; 47; 120]) false = FErr EUnmodelled
+  /\ fs_list ex_lit [100] (PSub [46; 46]) false = FErr EUnmodelled.
 Proof. vm_compute. repeat split. Qed.
